@@ -29,10 +29,10 @@ func (r *Rng) Intn(n int) int {
 	}
 	return int(r.U64() % uint64(n))
 }
-func (r *Rng) Chance(pct int) bool      { return r.Intn(100) < pct }
-func (r *Rng) PickI(xs ...int64) int64  { return xs[r.Intn(len(xs))] }
+func (r *Rng) Chance(pct int) bool       { return r.Intn(100) < pct }
+func (r *Rng) PickI(xs ...int64) int64   { return xs[r.Intn(len(xs))] }
 func (r *Rng) PickS(xs ...string) string { return xs[r.Intn(len(xs))] }
-func (r *Rng) Fork() *Rng               { return NewRng(r.U64()) }
+func (r *Rng) Fork() *Rng                { return NewRng(r.U64()) }
 
 // ---------- result file written for bin/check ----------
 
@@ -46,20 +46,20 @@ type Violation struct {
 }
 
 type Result struct {
-	Engine       string         `json:"engine"`
-	Seed         uint64         `json:"seed"`
-	Tier         string         `json:"tier"`
-	Evaluations  int            `json:"evaluations"`
-	Distinct     int            `json:"distinct_nontrivial"`
-	Rule         string         `json:"rule"`
-	Traces       int            `json:"traces_validated_against_impl"`
-	Samples      []interface{}  `json:"samples"`
-	Dist         map[string]int `json:"distribution"`
-	ImplViol     []Violation    `json:"impl_violations"`
-	ModelViol    []Violation    `json:"model_violations"`
-	Mismatch     []Violation    `json:"mismatches"`
-	Notes        []string       `json:"notes"`
-	Exhaustive   bool           `json:"exhaustive"`
+	Engine      string         `json:"engine"`
+	Seed        uint64         `json:"seed"`
+	Tier        string         `json:"tier"`
+	Evaluations int            `json:"evaluations"`
+	Distinct    int            `json:"distinct_nontrivial"`
+	Rule        string         `json:"rule"`
+	Traces      int            `json:"traces_validated_against_impl"`
+	Samples     []interface{}  `json:"samples"`
+	Dist        map[string]int `json:"distribution"`
+	ImplViol    []Violation    `json:"impl_violations"`
+	ModelViol   []Violation    `json:"model_violations"`
+	Mismatch    []Violation    `json:"mismatches"`
+	Notes       []string       `json:"notes"`
+	Exhaustive  bool           `json:"exhaustive"`
 }
 
 func newResult(engine string, seed uint64, tier string) *Result {
